@@ -32,6 +32,7 @@ type sendObs struct {
 func checkSend(x *model.Exec, s *bgen.SendStep) (string, bool, []string) {
 	script := bgen.ScriptFor(x, s.Script)
 	lin := x.NewSend(script)
+	lin.ErrKind = bgen.ErrKindsFor(x, s.ErrKinds)
 	exp := x.Expect(s.ET, lin)
 	x.W.Reset()
 	var ctx context.Context
@@ -40,7 +41,7 @@ func checkSend(x *model.Exec, s *bgen.SendStep) (string, bool, []string) {
 	if s.Ctx == 2 {
 		plan.CancelPoint, plan.CancelOcc = s.CancelPoint, s.CancelOcc
 	}
-	ctx, cancel, ctl := sched.With(context.Background(), plan)
+	ctx, cancel, ctl := sched.WithKind(context.Background(), plan, s.CtxKind)
 	defer cancel()
 	if s.Ctx == 1 {
 		cancel()
